@@ -21,6 +21,13 @@ def programs(tier, seed):
     ps.append(("b2a_u8_direct", prog([inp(b8), nd("B2A", [1], st="u8")]), [b8]))
     ps.append(("b2a_i64_direct", prog([inp(A("b", [64])), nd("B2A", [1], st="i64")]), [A("b", [64])]))
     ps.append(("a2b_i32_direct", prog([inp(A("i32", [2])), nd("A2B", [1])]), [A("i32", [2])]))
+    # container-typed private inputs (every element needs its own sharing randomness)
+    v3 = {"k": "v", "n": 3, "of": A("i32", [2])}
+    ps.append(("vec_input_mul", prog([inp(v3), inp(A("i32", [2])), nd("VectorToArray", [1]), nd("Multiply", [3, 2])]), [v3, A("i32", [2])]))
+    tp = {"k": "t", "el": [A("u64", [2]), A("u64", [2]), S("u64")]}
+    ps.append(("tuple_input_mul", prog([inp(tp), inp(S("u64")), nd("TupleGet", [1], i=0), nd("TupleGet", [1], i=1), nd("Multiply", [3, 4]), nd("Multiply", [5, 2])]), [tp, S("u64")]))
+    nt = {"k": "n", "nm": ["a", "b"], "el": [A("i64", [3]), A("i64", [3])]}
+    ps.append(("named_input_dot", prog([inp(nt), nd("NamedTupleGet", [1], key="a"), nd("NamedTupleGet", [1], key="b"), nd("Dot", [2, 3])]), [nt]))
     ps.append(("mixmul_direct", prog([inp(A("i64", [3])), inp(A("b", [3])), nd("MixedMultiply", [1, 2])]), [A("i64", [3]), A("b", [3])]))
     return ps
 
@@ -60,6 +67,32 @@ def jobs(tier, seed):
                 js.append({"id": jid, "name": name, "family": fam, "prog": p, "owners": ow, "outs": outs, "observer": obs,
                            "mode": ["Simple", "Default", "Extreme"][(oi + obs) % 3], "inputs_a": ia, "inputs_b": ib,
                            "runs": RUNS[tier], "seed": seed % 100000 + jid})
+    # observers that DO receive the output: only for programs whose result forgets much of the hidden inputs (comparisons,
+    # min / max, truncation, multiplexer, products with bits), so that a second input vector with the same result can be
+    # found among random candidates (the harness picks the first candidate whose plaintext result is the same)
+    forgetful = ("GreaterThan", "LessThanEqualTo", "Equal", "Min", "Max", "trunc2k", "truncgen", "mux_", "mixmul", "clip2k", "long_division", "not_or")
+    for name, p, its, fam in plist:
+        if not name.startswith(forgetful):
+            continue
+        k = len(its)
+        for s in range(3 if tier == "thorough" else 2):
+            ow = [(i + s) % 3 for i in range(k)]
+            for obs in range(3):
+                hidden = [i for i in range(k) if ow[i] != obs]
+                if not hidden:
+                    continue
+                ia = [wide3.rand_value(t, rng, small=True) for t in its]
+                cands = []
+                for _ in range(64):
+                    ib = list(ia)
+                    for i in hidden:
+                        ib[i] = wide3.rand_value(its[i], rng, small=True)
+                    if ib != ia:
+                        cands.append(ib)
+                jid += 1
+                js.append({"id": jid, "name": name, "family": "outobs", "prog": p, "owners": ow, "outs": [obs] if (s + obs) % 2 else [obs, (obs + 1) % 3],
+                           "observer": obs, "mode": ["Simple", "Default", "Extreme"][(s + obs) % 3], "inputs_a": ia, "inputs_b_candidates": cands,
+                           "runs": RUNS[tier], "seed": seed % 100000 + jid})
     return js
 
 
@@ -85,10 +118,13 @@ def run(chk, tag="detleak"):
             raise lib.ToolError("detleak harness exited %d: %s" % (p.returncode, err[-2000:]))
         failed += [l for l in err.splitlines() if l.startswith("job ")]
         recs += lib.read_ndjson(po)
+    skipped = [r for r in recs if "skipped" in r]
+    recs = [r for r in recs if "skipped" not in r]
+    chk.note(tag + "_output_observer_jobs_without_a_colliding_input", len(skipped))
     recs.sort(key=lambda r: r["id"])
     if not recs:
         raise lib.ToolError("detleak produced no records: " + " | ".join(failed[:3]))
-    slim = [{"id": r["id"], "per": r["per"]} for r in recs]
+    slim = [{"id": r["id"], "per": r["per"], "out": r["out"], "outobs": r["outobs"]} for r in recs]
     lib.write_ndjson(op, slim)
     res = lib.tlc("DetLeakTrace", "MC_DetLeakTrace.cfg", env={"TRACE": op}, workers=8, timeout=3000, coverage=False, xss="1g")
     chk.add_tlc(res, tag)
@@ -99,7 +135,7 @@ def run(chk, tag="detleak"):
         m = re.match(r'<<"LEAK", (\d+), \{(.*)\}>>', l)
         if m:
             leaks.append((recs[int(m.group(1)) - 1], [int(x) for x in m.group(2).split(",") if x.strip()]))
-        m = re.match(r'<<"MASKED", (\d+), (\d+)>>', l)
+        m = re.match(r'<<"MASKED", (\d+), (-?\d+)>>', l)
         if m:
             masked[int(m.group(1))] = int(m.group(2))
     return js, recs, leaks, failed, masked
